@@ -6,7 +6,7 @@
    `canonical` = coordinates in range, strictly increasing lexicographically, one datum per coordinate.
 
    D7 (roll guard) and D12 (float division in the -1 inference) were repaired in /repo: their statements are proved
-   in full (roll_axes_den, reshape_minus1_spec).  The `_refuted` statements below are the findings still present:
+   in full (roll_axes_den, reshape_minus1_spec, gcxs_reshape_minus1_spec).  The `_refuted` statements below are the findings still present:
    each shows, by a concrete witness, that the corresponding full statement ("accepted exactly when NumPy accepts")
    is false of the code; the `_den` / `_partial` theorem beside it is the proved part. *)
 From Coq Require Import ZArith List Bool Sorting.Sorted.
@@ -140,6 +140,14 @@ Theorem reshape_minus1_spec :
     shape_ok sh -> (count_m1 new <= 1)%nat -> coo_reshape_shape sh new = np_reshape_target sh new.
 Proof. exact reshape_minus1_spec_proof. Qed.
 Print Assumptions reshape_minus1_spec.
+
+(* the same for GCXS.reshape's own copy of the inference and size test (integer arithmetic since commit 0bffb82;
+   the GCXS coordinate conversion itself is not modelled) *)
+Theorem gcxs_reshape_minus1_spec :
+  forall (sh : shape) (new : list Z),
+    shape_ok sh -> (count_m1 new <= 1)%nat -> gcxs_reshape_shape sh new = np_reshape_target sh new.
+Proof. exact gcxs_reshape_minus1_spec_proof. Qed.
+Print Assumptions gcxs_reshape_minus1_spec.
 
 (* reshape: same row-major sequence of elements (np_reshape = unravel o ravel), fill unchanged. *)
 Theorem reshape_den :
